@@ -24,7 +24,7 @@ CONSTANTS TolE,      \* reported = measured (1e-7 units)
           TolMono,   \* energy increase allowed between untruncated updates (solver / float noise)
           TolMonoX,  \* the same across the bond expansion of one-site DMRG (random noise 1e-6 is injected)
           TolN,      \* |<psi|psi> - 1| (1e-7 units)
-          TolW,      \* discarded weight up to which an update counts as untruncated (1e-9 units)
+          TolW,      \* discarded weight of a split up to which an update counts as untruncated (1e-9 units)
           TolWExact, \* discarded weight that ends a provably-exact streak (1e-9 units)
           TolConv,   \* |E - E0| when ConvergedExact applies
           TolState,  \* 1 - overlap with the exact ground space (1e-7 units)
@@ -65,7 +65,7 @@ RunState(ln) ==
    G |-> IF Classical(ln) THEN GroundSet(ln.f, ln.g, ln.L, ln.d) ELSE {},
    k |-> 0, prevdir |-> "0", dir |-> "0", canon |-> TRUE, cap |-> 0, capmax |-> 0, cut12 |-> 0,
    pend |-> <<>>, visited |-> <<>>, live |-> FALSE,
-   lastE |-> [has |-> ln.ep0 < 2147483647, e |-> ln.ep0], lastTot |-> 0, lastW9 |-> 0,
+   lastE |-> [has |-> ln.ep0 < 2147483647, e |-> ln.ep0], lastTot |-> 0,
    sweepE |-> <<>>, exactSince |-> FALSE]
 
 (* --------------------------- sweep_start -------------------------------- *)
@@ -78,17 +78,19 @@ StartClauses(ln, s) ==
           /\ ln.dir = SeqDir(c.seq, ln.k)
           /\ ln.cap = Sched(c.caps, ln.k)
           /\ ln.cut12 = Sched(c.cuts12, ln.k)
-          /\ ln.canon = NeedCanonize(ln.dir, s.prevdir)>> >>
+          \* "Canonize the state first, not needed if doing alternate sweeps": it may canonize more often
+          /\ (NeedCanonize(ln.dir, s.prevdir) => ln.canon)>> >>
 
 StartState(ln, s) ==
   [s EXCEPT !.k = ln.k, !.dir = ln.dir, !.canon = ln.canon, !.cap = ln.cap, !.capmax = Max2(@, ln.cap), !.cut12 = ln.cut12,
             !.pend = SweepSites(ln.dir, s.cfg.L, s.cfg.bsz), !.visited = <<>>, !.live = TRUE]
 
 (* ------------------------------ update ---------------------------------- *)
-\* the state after the update is normalised (a valid reference for the next update)
-Normed(ln) == ln.w9 <= TolW
-\* nothing was cut by this update: one-site updates never truncate, a two-site split that kept the norm did not
-Untrunc(ln, c) == c.bsz = 1 \/ ln.w9 <= TolW
+\* the state after the update is normalised (a valid reference energy for the next update)
+Normed(ln) == Close(ln.n7, E7, TolN)
+\* nothing was cut by this update: one-site updates never truncate; for a two-site split dw9 is the discarded
+\* weight (unit 1e-9) recomputed from the singular values of the tensor that was split
+Untrunc(ln, c) == c.bsz = 1 \/ ln.dw9 <= TolW
 
 UpdateClauses(ln, s) ==
   LET c == s.cfg
@@ -112,7 +114,7 @@ UpdateClauses(ln, s) ==
                                    /\ (Untrunc(ln, c) => ln.etot <= s.lastE.e + monotol))>>,
      <<"BondCap", SeqGE(ln.bonds, 1) /\ (c.bsz = 2 => ln.nb <= s.cap)>>,
      \* nothing cut => the state stays normalised
-     <<"FullRankKeepsNorm", (c.bsz = 1 \/ ln.nb = ln.rmax) => ln.w9 <= TolW>>,
+     <<"FullRankKeepsNorm", (Untrunc(ln, c) \/ ln.nb = ln.rmax) => Normed(ln)>>,
      \* what the protocol model predicts: the blocks are isometric, except in one-site sweeps that were not
      \* re-canonized after the bond expansion (model deviation KF-C10-3)
      <<"NOTE:CanonicalBlocks", ln.pre9 <= TolCanon \/ (c.bsz = 1 /\ ~s.canon)>> >>
@@ -121,8 +123,8 @@ UpdateState(ln, s) ==
   [s EXCEPT !.pend = IF @ = <<>> THEN @ ELSE Tail(@),
             !.visited = Append(@, ln.i),
             !.lastE = [has |-> Normed(ln), e |-> ln.etot],
-            !.lastTot = ln.etot, !.lastW9 = ln.w9,
-            !.exactSince = IF ln.w9 > TolWExact THEN FALSE
+            !.lastTot = ln.etot,
+            !.exactSince = IF ln.dw9 > TolWExact \/ ~Normed(ln) THEN FALSE
                            ELSE IF ln.full /\ s.cfg.exact THEN TRUE ELSE @]
 
 (* ----------------------------- sweep_end -------------------------------- *)
@@ -189,9 +191,9 @@ PeriodicClauses(ln) ==
   IF ln.exc # "" THEN << <<"NOTE:PeriodicRunRaised", FALSE>> >>
   ELSE
   << <<"ReportedEqualsMeasured.Periodic",
-          /\ Abs(ln.e - ln.emd) * 100 <= TolPeriodicPct * (Abs(ln.emd) + E7)
-          /\ Abs(ln.e - ln.ema) * 100 <= TolPeriodicPct * (Abs(ln.ema) + E7)>>,
-     <<"Normalized.Periodic", Abs(ln.n7 - E7) * 100 <= TolPeriodicPct * E7>>,
+          /\ Abs(ln.e - ln.emd) <= TolPeriodicPct * ((Abs(ln.emd) + E7) \div 100)
+          /\ Abs(ln.e - ln.ema) <= TolPeriodicPct * ((Abs(ln.ema) + E7) \div 100)>>,
+     <<"Normalized.Periodic", Abs(ln.n7 - E7) <= TolPeriodicPct * (E7 \div 100)>>,
      <<"RoutesAgree", Close(ln.ema, ln.emd, TolE)>> >>
 
 (* ------------------------------ machinery ------------------------------- *)
